@@ -4,6 +4,7 @@ import (
 	"bufio"
 	"context"
 	"encoding/binary"
+	"fmt"
 	"io"
 	"io/ioutil"
 	"log"
@@ -298,6 +299,11 @@ func readmsg(rd io.Reader, p []byte) (n int, err error) {
 
 	n += binary.Size(msize)
 	mbody := int(msize) - 4
+
+	if mbody < 0 {
+		// the size field counts itself, so anything below 4 is impossible.
+		return n, fmt.Errorf("p9p: invalid message size %d", msize)
+	}
 
 	if mbody < len(p) {
 		p = p[:mbody]
